@@ -21,13 +21,18 @@ EXPRS = [
     '//span["a" || @zz = "a"]', '//span[text() > 1]',
     # more valid ones to reach 40
     '//span[@n > 1 and @n < 5]', '//*[@n = 5 or @n = 1]', '//p[1]/span', '//span[last()]',
+    # texts that differ only in white space inside a string literal (different expressions), and only outside one (same meaning)
+    '//span[@t = "a b"]', '//span[@t = "a  b"]', '//span[@t="a b"]', '//span[contains(@t, " b")]', '//span[contains(@t, "  b")]',
 ]
+WS_PAIRS = [('//span[@t = "a b"]', '//span[@t = "a  b"]'), ('//span[contains(@t, " b")]', '//span[contains(@t, "  b")]'),
+            ('//span[@t = "a b"]', '//span[@t="a b"]')]
 DOCS = [
     '<div id="a" n="1"><span n="2" class="x">t</span><span n="3">u</span><p n="4"><span n="5">v</span></p></div>',
     '<div n="1"><div n="2"><span n="3">t</span></div><span n="4" class="x">u</span></div>',
     '<p n="1"><span n="2">u</span><span n="3">u</span><span n="4">t</span></p>',
     '<div n="1"></div>',
     '<div n="1"><p n="2"><span n="3" class="x">t</span><span n="4">u</span></p><p n="5"><span n="6">u</span></p></div>',
+    '<div n="1"><span n="2" t="a b">t</span><span n="3" t="a  b">u</span><span n="4" t="ab">v</span></div>',
 ]
 
 _state = {}
@@ -114,7 +119,7 @@ class C15(core.Check):
             'executed on the real global cache and on the model; after every event: result (uid ranks or exception class), '
             'recency list, table keys, lock state. Family (a): every sequence of <=4 (quick) / <=6 (thorough, all of them) events over '
             '5 texts with the bounds shrunk to 3/1 in the harness process; (b) random sequences of 300 (quick) / 2000 events '
-            'over 40 texts (valid, not compiling, failing at run time) x 5 trees at the shipped bounds; (c) 2-16 real threads with '
+            'over 45 texts (valid, not compiling, failing at run time, pairs differing only in white space inside / outside a string literal) x 6 trees at the shipped bounds; (c) 2-16 real threads with '
             'switch interval 1e-6 compared with the sequential cache-less results (oracle only). non-trivial = the cache '
             'state changes at least once; distinct by event list and bounds')
     TRUSTED = ['SHA-1 collision freeness of cache keys (the model keys the cache by the text)',
@@ -160,6 +165,13 @@ class C15(core.Check):
                 else:
                     evs.append(['eval', k, rng.randrange(len(DOCS))])
             cases.append(dict(bounds=list(st['shipped']), events=evs))
+        # (b') texts differing only in white space, evaluated one after the other in both orders on the tree that tells them apart
+        wsdoc = len(DOCS) - 1
+        for a, b in WS_PAIRS:
+            ia, ib = EXPRS.index(a), EXPRS.index(b)
+            for x, y in ((ia, ib), (ib, ia)):
+                cases.append(dict(bounds=list(st['shipped']), events=[['eval', x, wsdoc], ['eval', y, wsdoc], ['new', 0, x], ['new', 1, y],
+                                                                     ['evalobj', 0, wsdoc], ['evalobj', 1, wsdoc], ['eval', x, wsdoc]]))
         # (c) threaded schedules (oracle only; not sent to the model)
         nt = 4 if self.tier == 'quick' else 30
         for _ in range(nt):
